@@ -346,6 +346,11 @@ def sched_check(ctx, oracle, profiles, nontrivial, witnesses=(), rule=''):
         res, n = run_corr(ctx, cases[k:k + 120], oracle)
         results += res
         nmis += n
+        if ctx.nviol:
+            # a failing input is on the table: the verdict does not depend on
+            # the remaining histories
+            ctx.note('stopped_after_first_violation', {'histories_run': len(results), 'planned': len(cases)})
+            break
     keys = [str(r.get('seed')) for r in results if nontrivial(r)]
     ctx.count(evaluations=len(results), nontrivial_keys=keys)
     hist = {}
